@@ -574,7 +574,54 @@ Definition from_save (c : schunk) : sres (list (option (sect wcont)) * hmaps * l
 End Save.
 
 (* ------------------------------------------------------------------------------------------------ *)
-(* SetBlock and the non-air counter, over any container with Get / Set                               *)
+(* the section part of ChunkFromSave over ANY model of New*PaletteContainerWithData and Get: the same
+   code as from_save_sec (from_save_sec_generic_eq below), so that theorems about another model of the
+   constructor (C12's pc_with_data) speak about the same section glue                                  *)
+Section FromSaveG.
+Variable cont : Type.
+Variable mk : bool -> list N -> list Z -> sres cont.      (* biome?, data, palette ids *)
+Variable get : cont -> Z -> outcome.
+Variable st_id : list N * (N * list N) -> option Z.
+Variable bio_id : list N -> option Z.
+Variable is_air : Z -> bool.
+
+Definition all_gets (n : nat) (c : cont) : option (list Z) :=
+  fold_right (fun i acc => match get c (Z.of_nat i), acc with
+                           | ORet v, Some l => Some (v :: l)
+                           | _, _ => None
+                           end) (Some []) (seq 0 n).
+Definition count_g (c : cont) : sres Z :=
+  match all_gets (Z.to_nat sec_len) c with
+  | None => SPanic pOOB
+  | Some l => SOk (Z.of_nat (length (filter (fun v => negb (is_air v)) l)))
+  end.
+Definition from_save_sec_g (v : ssect) : sres (sect cont) :=
+  match opt_all (map st_id (ss_bpal v)) with
+  | None => SErr
+  | Some ids =>
+      match mk false (ss_bdata v) ids with
+      | SErr => SErr | SPanic w => SPanic w
+      | SOk st =>
+          match count_g st with
+          | SErr => SErr | SPanic w => SPanic w
+          | SOk cnt =>
+              match opt_all (map bio_id (ss_biopal v)) with
+              | None => SErr
+              | Some bids =>
+                  match mk true (ss_biodata v) bids with
+                  | SErr => SErr | SPanic w => SPanic w
+                  | SOk bi => SOk (mkSec (sx16 (u16 cnt)) st bi (ss_sky v) (ss_blk v))
+                  end
+              end
+          end
+      end
+  end.
+End FromSaveG.
+
+(* the concrete model is the instance *)
+Definition wc_mk (gs gb : Z) (biome : bool) (dat : list N) (pat : list Z) : sres wcont :=
+  with_data gs gb biome (if biome then bio_len else sec_len) dat pat.
+
 
 Section Count.
 Variable cont : Type.
